@@ -63,6 +63,10 @@ def rejection_shapes(w, cn, kind):
             n = run_.norm.n(c)
             if isinstance(n, tuple) and n and n[0] == "binop" and n[2] == ("len", ("in", "bytes")) and n[3][0] == "int":
                 continue                # the kind's own length test
+            rn = repr(n)
+            if ("('index', ('in', 'bytes')" in rn or "('len', ('in', 'bytes'))" in rn) and "call" not in rn:
+                continue                # a test of the supplied encoding itself (length / format tag), not of the key:
+                                        # what encode() emits satisfies it when R08.1b (encode∘decode identity) holds
             out[repr(_shape(n))] = fmt_n(n)[:160]
     return f, out
 
@@ -145,6 +149,14 @@ def run(ctx):
                 ctx.add("R08.1", f"C08/decode-width/{be}/{kind}", not probs, "; ".join(sorted(set(probs))), site_of(f))
                 # ---- R08.1b identity
                 ok, why, _ = keyrules.encode_decode_identity(w, cn, kind)
+                if be == "v3" and kind in ("Public", "PkePublic"):
+                    # RustCrypto's SEC1 parser also accepts the 49-byte "compact" tag 0x05 and maps it to a 0x02/0x03 point:
+                    # parse/serialise are inverse only for the compressed tags, so every success path must have tested byte 0
+                    for r in run_.ok_paths:
+                        tags = [g["value"] for g in r.path.guards if run_.norm.n(g["cond"]) == ("index", ("in", "bytes"), ("int", 0)) and isinstance(g["value"], int)]
+                        if not tags or any(t not in (2, 3) for t in tags):
+                            ok = False
+                            why = (why + "; " if why else "") + "a success path does not restrict the SEC1 tag byte to 0x02/0x03 (the 49-byte compact form 0x05||x parses and re-serialises differently)"
                 ctx.add("R08.1b", f"C08/encode-decode-identity/{be}/{kind}", ok, why, site_of(f))
             # ---- R08.2 validators
             if kind == "Local":
